@@ -138,6 +138,7 @@ fn plan_c01(thorough: bool) -> Plan {
         cases.extend(cs);
     }
     cases.extend(pfx_family("values"));
+    cases.extend(cache_pressure_family("values", thorough));
     // (d) the same with a reopen inserted at every position (control symbol), reduced alphabet
     let base = enum_commit_histories(2, 4, 2, &a_small, &mk_case("leaf", vec!["seed:0,1,4,5"], &cfg, "values", false));
     cases.extend(with_control_everywhere(&base, &json!({"reopen": {}})));
@@ -200,7 +201,7 @@ fn plan_c02(thorough: bool) -> Plan {
     sort_by_bound(&mut cases);
     let mut p = Plan::new(
         cases,
-        "histx: every history of D commits with at most B key actions {insert, delete, overwrite} over (i) a 14-key family diverging at bits {0,1,5,6,7,11,12,13,17,18,127,254,255} and (ii) clusters of 18..22 keys below one depth-2 and one depth-3 merkle page (page-elision threshold from both sides), for 1..64 commit workers, and (iii) the tombstone family (16/32-bucket tables × 16 bitbox seeds, 10 pages, every page / adjacent pair of pages removed, cold reopen, re-insert, reopen), and (iv) every schedule with ≤2 (thorough: all) preemptions of the three merkle update workers of one commit (worker start, publishing of child-page roots, hand-back of the write pass, root-page phase) under the controlled scheduler; FinishedSession::root, Nomt::root after each commit and after a final reopen are compared with an independent from-scratch recursive trie over the model's key-value set. Non-trivial = at least one write committed.",
+        "histx: every history of D commits with at most B key actions {insert, delete, overwrite} over (i) a 14-key family diverging at bits {0,1,5,6,7,11,12,13,17,18,127,254,255} and (ii) clusters of 18..22 keys below one depth-2 and one depth-3 merkle page (page-elision threshold from both sides), for 1..64 commit workers, and (iii) the tombstone family (16/32-bucket tables × 16 bitbox seeds, 10 pages, every page / adjacent pair of pages removed, cold reopen, re-insert, reopen), and (iv) every schedule with ≤2 (thorough: all) preemptions of the three merkle update workers of one commit (worker start, publishing of child-page roots, hand-back of the write pass, root-page phase) under the controlled scheduler; FinishedSession::root, Nomt::root after each commit and after a final reopen are compared with an independent from-scratch recursive trie over the model's key-value set. Non-trivial = at least one write committed. Also ALL schedules (a few hundred per batch) of the three beatree leaf-stage workers of one commit whose ranges are three consecutive leaves that all fall below the merge threshold (three batches: two of three values deleted / values shrunk and last leaf deleted / middle leaf deleted), i.e. of the extend-range protocol between neighbouring workers (poll left neighbour, send request, wait for response, wait for left neighbour to conclude, join in completion order): after every schedule the values, root and proofs equal the model and the directory decodes (independent decoder) to exactly the model with every page accounted for.",
     );
     p.budget_s = if thorough { 1500 } else { 40 };
     p.assumptions = vec!["collision resistance of the hasher (equal roots ⇔ equal tries)".into()];
@@ -388,6 +389,26 @@ pub fn crash_histories(thorough: bool) -> Vec<(Value, usize, u64)> {
         out.push((hist("empty", pairs.clone(), &cfg, vec![c(fill.clone()), c(vec![del(2), del(3), del(4), del(5)])]), 1, 3));
         out.push((hist("empty", pairs.clone(), &cfg, vec![c(fill.clone()), c(vec![del(0), del(1)]), c(vec![w(0, 2), w(1, 2)])]), 2, 3));
     }
+    // a hash table that is exactly full (root + three depth-1 pages in 4 buckets): a commit that
+    // empties one page and needs a fresh one must put the new page into the bucket the old one
+    // vacates in the same sync; crash cuts replay that from the WAL
+    {
+        let mut cfg4 = cfg_crash();
+        cfg4.buckets = 4;
+        let pairs = vec!["PAIRS:6"];
+        let mut fill: Vec<Value> = (0..6).map(|i| w(i, 1)).collect();
+        fill.extend([6u64, 8, 10].map(|i| w(i, 1)));
+        for x in 0..6u64 {
+            for y in [7u64, 9, 11] {
+                if !thorough && ![(0, 7), (1, 9), (2, 11), (5, 7)].contains(&(x, y)) {
+                    continue;
+                }
+                out.push((hist("empty", pairs.clone(), &cfg4, vec![c(fill.clone()), c(vec![del(x), w(y, 1)])]), 1, 3));
+            }
+        }
+        out.push((hist("empty", pairs.clone(), &cfg4, vec![c(fill.clone()), c(vec![del(0), del(3), w(7, 1), w(11, 1)])]), 1, 3));
+        out.push((hist("empty", pairs.clone(), &cfg4, vec![c(fill.clone()), c(vec![del(0), del(1), w(9, 1)]), c(vec![w(0, 2), del(2), del(3), w(1, 2)])]), 2, 3));
+    }
     if thorough {
         // every earlier op of the explicit histories as target too is covered by (a) prefixes;
         // add two-worker variants
@@ -483,6 +504,26 @@ fn fault_plan(thorough: bool) -> Plan {
     p.timeout_is_violation = true;
     p.assumptions = vec!["failures are injected at the I/O seam (before the syscall / at I/O-pool submission or completion); read failures are not injected".into()];
     p
+}
+
+/// Cache-pressure family: twice as many leaves as the leaf cache holds, every seed key read back
+/// after every commit (so the cache is over budget when the next commit starts), commits that
+/// rewrite leaves in place: the page freed by one commit is re-used by the next one while the cache
+/// still holds the leaf that used to live there.
+pub fn cache_pressure_family(audit: &str, thorough: bool) -> Vec<Value> {
+    let mut cfg = cfg_small();
+    cfg.leaf_cache = 1;
+    cfg.buckets = 4096;
+    let a = acts(&[("w", Some(1)), ("d", None), ("w", Some(1300))]);
+    // universe: two adjacent keys in the middle of the tree (shrinking their leaf merges it with
+    // a neighbour, rewriting it again lands in a page that was just released) and keys far away
+    let uni = if thorough { "seed:1,400,401,1493,1496,1499" } else { "seed:400,401,1496,1499" };
+    let n = if thorough { 6 } else { 4 };
+    let mut cs = enum_commit_histories(if thorough { 4 } else { 3 }, n, if thorough { 3 } else { 2 }, &a, &mk_case("wide", vec![uni], &cfg, audit, true));
+    for c in cs.iter_mut() {
+        c["audit_seed_keys"] = json!(true);
+    }
+    cs
 }
 
 /// Bulk-shrink family: a branch node built with stopped prefix compression; one commit deletes a
